@@ -421,6 +421,28 @@ func (e *execEngine) buildTx(n *node, t []string) (pb.Transaction, bool, error) 
 		}
 		return b, false, nil
 	}
+	if strings.HasPrefix(t[0], "hdr:") && len(t) > 1 {
+		// hdr:<noto|tozero> <tx...> : a header field of the (locally submitted) transaction is missing / zero
+		tx, loc, err := e.buildTx(n, t[1:])
+		if err != nil {
+			return nil, false, err
+		}
+		b, ok := tx.(*pb.BxhTransaction)
+		if !ok {
+			return nil, false, fmt.Errorf("hdr on non-bxh tx")
+		}
+		switch t[0][4:] {
+		case "noto":
+			b.To = nil
+		case "tozero":
+			b.To = &types.Address{}
+		default:
+			return nil, false, fmt.Errorf("bad hdr kind")
+		}
+		b.TransactionHash = nil
+		b.TransactionHash = b.Hash()
+		return b, loc, nil
+	}
 	switch t[0] {
 	case "xfer": // xfer from to amt
 		if len(t) != 4 {
